@@ -403,6 +403,18 @@ fn families() -> &'static Vec<Family> {
             Family { name: "claims set with n extra text claims", ty: "ClaimsSet", build: |n| rep(map_head(n), n, |i| { let t = format!("{:06}", i); let mut b = vec![]; head(&mut b, 3, t.len() as u64); b.extend_from_slice(t.as_bytes()); b.push(0x00); b }) },
             Family { name: "COSE_Sign1 with an n-chunk indefinite payload", ty: "CoseSign1", build: |n| { let mut b = vec![0x84, 0x40, 0xa0, 0x5f]; for _ in 0..n { b.extend_from_slice(&[0x41, 0x61]); } b.extend_from_slice(&[0xff, 0x40]); b } },
             Family { name: "value: array of n integers", ty: "Value", build: |n| rep(arr_head(n), n, |_| vec![0x00]) },
+            // the same wide maps with their labels in descending and in scattered order (the order in which
+            // labels arrive must not matter to the cost of policing duplicates)
+            Family { name: "header with n extra parameters, labels descending", ty: "Header", build: |n| rep(map_head(n), n, move |i| [uint(1000 + (n - 1 - i) as u64), vec![0x00]].concat()) },
+            Family { name: "header with n extra parameters, labels scattered", ty: "Header", build: |n| rep(map_head(n), n, move |i| [uint(1000 + ((i * 7919) % n) as u64), vec![0x00]].concat()) },
+            Family { name: "protected header with n extras (descending) inside COSE_Sign1", ty: "CoseSign1", build: |n| {
+                let inner = rep(map_head(n), n, move |i| [uint(1000 + (n - 1 - i) as u64), vec![0x00]].concat());
+                [vec![0x84], bstr(&inner), vec![0xa0, 0xf6, 0x40]].concat()
+            } },
+            Family { name: "key with n extra parameters, labels descending", ty: "CoseKey", build: |n| rep([map_head(n + 1), vec![0x01, 0x01]].concat(), n, move |i| [uint(1000 + (n - 1 - i) as u64), vec![0x00]].concat()) },
+            Family { name: "key with n extra parameters, labels scattered", ty: "CoseKey", build: |n| rep([map_head(n + 1), vec![0x01, 0x01]].concat(), n, move |i| [uint(1000 + ((i * 7919) % n) as u64), vec![0x00]].concat()) },
+            Family { name: "claims set with n extra text claims, names descending", ty: "ClaimsSet", build: |n| rep(map_head(n), n, move |i| { let t = format!("{:06}", n - 1 - i); let mut b = vec![]; head(&mut b, 3, t.len() as u64); b.extend_from_slice(t.as_bytes()); b.push(0x00); b }) },
+            Family { name: "key with n text key operations, descending", ty: "CoseKey", build: |n| rep([vec![0xa2, 0x01, 0x01, 0x04], arr_head(n)].concat(), n, move |i| { let t = format!("{:06}", n - 1 - i); let mut b = vec![]; head(&mut b, 3, t.len() as u64); b.extend_from_slice(t.as_bytes()); b }) },
         ]
     })
 }
@@ -674,7 +686,7 @@ pub fn property() -> Property {
                shape bombs (arity 0..7 arrays of arbitrary slots, counter-signature / key_ops / crit oddities); size/depth bombs up to 1 MiB (thorough 4 MiB): nesting to depth 2^17, huge declared lengths, chunk chains, wide flat arrays/maps/key sets/signer lists, \
                recipient nesting, and protected-header ⊃ counter-signature chains of depth up to 60000 in three shapes (protected / unprotected / alternating) x four forms (single counter-signature, array of one, array of two, alternating) inside nine carriers — through every decoding entry point (from_slice of every type, from_tagged_slice of the six tagged types, ProtectedHeader::from_cbor_bstr), \
                followed on accepted values by clone, ==, Debug, re-encode, drop and the to-be-signed / verify / MAC / decrypt helpers under their documented preconditions; in a supervised worker on a 2 MiB stack; \
-               oracle: no panic, no process death, heap peak <= 4096n+2MiB and total allocation <= 16384n+8MiB per entry point (>= 8x the maxima observed on the unchanged tree, which the evidence reports) (deterministic proxy for linear time), a watchdog for hangs (inconclusive, not a violation); plus a scaling oracle: for 15 families of wide inputs (n trailing KDF strings, n extras, n signers, n recipients, n keys, n chunks ...) thread CPU time of decode + follow-ups is measured on a quadrupling ladder and two consecutive steps costing more than 11x (linear: 4x, quadratic: 16x) fail; \
+               oracle: no panic, no process death, heap peak <= 4096n+2MiB and total allocation <= 16384n+8MiB per entry point (>= 8x the maxima observed on the unchanged tree, which the evidence reports) (deterministic proxy for linear time), a watchdog for hangs (inconclusive, not a violation); plus a scaling oracle: for 22 families of wide inputs (labels ascending, descending and scattered) (n trailing KDF strings, n extras, n signers, n recipients, n keys, n chunks ...) thread CPU time of decode + follow-ups is measured on a quadrupling ladder and two consecutive steps costing more than 11x (linear: 4x, quadratic: 16x) fail; \
                non-trivial = well-formed CBOR accepted by some entry point, or any bomb; distinct by input bytes",
         assumptions: &["'ordinary thread stack' = Rust's default 2 MiB for spawned threads, release build of the harness with overflow checks on", "time proportionality is checked through allocated bytes, a CPU-time quadrupling ladder on parametric wide inputs (threshold 11x on two consecutive steps) and a 120 s per-case watchdog"],
         exhaustive_domains: &["scaling ladder (n, 4n, 16n, ... up to 4*10^5 elements / 2 MiB / 1 s) over 15 parametric wide-input families"],
